@@ -35,6 +35,7 @@ def _harness_module(pid):
 def _run_config(args):
     pid, cfg, seed, budget_s = args[:4]
     prefixes = args[4] if len(args) > 4 else None
+    global_deadline = args[5] if len(args) > 5 else None
     t0 = time.time()
     out = dict(cfg=cfg, key=cfg.get("key", json.dumps(cfg, sort_keys=True)))
     try:
@@ -57,7 +58,7 @@ def _run_config(args):
 
         res = core.explore(wrapped, max_paths=cfg.get("max_paths", 100000),
                            timeout_ms=cfg.get("timeout_ms", 15000), seed=seed,
-                           deadline=t0 + budget_s, prefixes=prefixes,
+                           deadline=min(t0 + budget_s, global_deadline) if global_deadline else t0 + budget_s, prefixes=prefixes,
                            stop_when_pending=(cfg.get("split") if prefixes is None else None))
         out["more_prefixes"] = res.pending_prefixes
         d = dict(paths=res.paths, aborted=res.aborted, cuts=res.cuts, inconclusive=res.inconclusive,
@@ -214,6 +215,14 @@ def main(argv):
         import random
         random.Random(seed).shuffle(cfgs)
     cfgs.sort(key=lambda c: -c.get("cost", 1))
+    # thorough tier: one overall wall budget (configurations still running then are reported truncated = inconclusive, never passed),
+    # and big configurations are split over the cores by decision prefix
+    total_budget = float(os.environ.get("VERIF_TOTAL_BUDGET_S", meta.get("total_budget_s", {}).get(tier, 0 if tier == "quick" else 1500)))
+    global_deadline = (t0 + total_budget) if total_budget else None
+    if tier == "thorough":
+        for c in cfgs:
+            if c.get("cost", 0) >= 1000 and "split" not in c:
+                c["split"] = 32
     budget = float(os.environ.get("VERIF_CFG_BUDGET_S", meta.get("cfg_budget_s", {}).get(tier, 240 if tier == "quick" else 1500)))
     # real build in the background: translator validation
     tv_cases = mod.tv_cases(tier) if hasattr(mod, "tv_cases") else None
@@ -228,7 +237,7 @@ def main(argv):
         doneq = _q.Queue()
         outstanding = 0
         for c in cfgs:
-            pool.apply_async(_run_config, ((pid, c, seed, budget),), callback=doneq.put, error_callback=doneq.put)
+            pool.apply_async(_run_config, ((pid, c, seed, budget, None, global_deadline),), callback=doneq.put, error_callback=doneq.put)
             outstanding += 1
         raw = []
         while outstanding:
@@ -242,7 +251,7 @@ def main(argv):
             # decision-tree split: the pending prefixes of a big configuration are explored by other workers
             chunk = max(1, len(more) // (2 * nproc) + (1 if len(more) % (2 * nproc) else 0)) if more else 1
             for i in range(0, len(more), chunk):
-                pool.apply_async(_run_config, ((pid, r["cfg"], seed, budget, more[i:i + chunk]),), callback=doneq.put, error_callback=doneq.put)
+                pool.apply_async(_run_config, ((pid, r["cfg"], seed, budget, more[i:i + chunk], global_deadline),), callback=doneq.put, error_callback=doneq.put)
                 outstanding += 1
         for r in _merge_by_key(raw):
             results.append(r)
